@@ -760,8 +760,12 @@ def judge_replay(r, tmp, verbose=False):
     if op == "robustness":
         bad = robustness(corpus_value(r))
         return [bad] if bad else []
+    if op == "tcp-timing":
+        bad = tcp_timing_probe(r["class"], r["timeout"], r["rt"])
+        say("impl:", bad or "as configured")
+        return [bad] if bad else []
     if op == "retain":
-        bad = mqtt_retain_probe(r["class"], r["retain"])
+        bad = mqtt_retain_probe(r["class"], r["retain"], r.get("pin", "px/in"), r.get("pout", "px/out"))
         return [bad] if bad else []
     if op == "effect":
         bad = effect_probe(r["class"], r["callback"], r["ext"], tmp)
@@ -834,11 +838,11 @@ def effect_probe(name, with_callback, ext, tmp):
     return None
 
 
-def mqtt_retain_probe(name, retain):
+def mqtt_retain_probe(name, retain, pin="px/in", pout="px/out"):
     """in_prefix / out_prefix / retain honoured by effect: every command published carries the configured
     retain flag and the configured out prefix, whatever its payload.  Returns a failure text or None."""
     pubs = []
-    vals = dict(values_a("/nonexistent"), protocol_version="2.2", out_prefix="px/out", in_prefix="px/in",
+    vals = dict(values_a("/nonexistent"), protocol_version="2.2", out_prefix=pout, in_prefix=pin,
                 pub_callback=lambda topic, payload, qos, ret: pubs.append((topic, payload, qos, ret)),
                 sub_callback=lambda topic, cb, qos: None)
     keys = ["pub_callback", "sub_callback", "protocol_version", "out_prefix", "in_prefix"]
@@ -861,40 +865,102 @@ def mqtt_retain_probe(name, retain):
         if ret is not want and ret != want:
             return (f"{name}(retain={retain!r}) published {c.strip()!r} (payload {payload!r}) with retain={ret!r}, "
                     f"not the configured {want!r}")
-        if not topic.startswith("px/out/"):
-            return f"{name}(out_prefix='px/out') published {c.strip()!r} to {topic!r}"
+        if not topic.startswith(pout + "/") or topic.count("/") != pout.count("/") + 5:
+            return f"{name}(out_prefix={pout!r}) published {c.strip()!r} to {topic!r}"
     # in_prefix by effect: exactly the topics made of the configured prefix and the five message levels are
     # taken in; what lies next to it, above it or deeper below it belongs to somebody else
     jobs = []
     gw.tasks.add_job = lambda func, *args: jobs.append(args)
-    deliveries = [("px/in/1/1/1/0/2", True), ("px/out/1/1/1/0/2", False), ("px/in/garage/1/1/1/0/2", False),
-                  ("other/1/1/1/0/2", False), ("/1/1/1/0/2", False), ("px/inx/1/1/1/0/2", False),
-                  ("px/1/1/1/0/2", False), ("gw/px/in/1/1/1/0/2", False), ("px/in/7/255/3/0/0", True),
-                  ("px/in/px/in/1/1/1/0/2", False)]
+    deliveries = [(f"{pin}/1/1/1/0/2", True), (f"{pout}/1/1/1/0/2", False), (f"{pin}/garage/1/1/1/0/2", False),
+                  ("other/1/1/1/0/2", False), ("/1/1/1/0/2", False), (f"{pin}x/1/1/1/0/2", False),
+                  (f"{pin.rsplit('/', 1)[0]}/1/1/1/0/2", "/" not in pin), (f"gw/{pin}/1/1/1/0/2", False),
+                  (f"{pin}/7/255/3/0/0", True), (f"{pin}/{pin}/1/1/1/0/2", False),
+                  (f"{pin.rstrip('/')}/1/1/1/0/2", not pin.endswith("/")), (f"{pin}//1/1/1/0/2", False)]
     for topic, mine in deliveries:
         del jobs[:]
         try:
             gw.tasks.transport.recv(topic, "1", 0)
         except Exception as exc:  # noqa: BLE001
-            return f"{name}(in_prefix='px/in'): a delivery on {topic!r} raised {type(exc).__name__}: {exc}"
+            return f"{name}(in_prefix={pin!r}): a delivery on {topic!r} raised {type(exc).__name__}: {exc}"
         if bool(jobs) != mine:
-            return (f"{name}(in_prefix='px/in'): a delivery on {topic!r} was "
+            return (f"{name}(in_prefix={pin!r}): a delivery on {topic!r} was "
                     f"{'taken in as ' + repr(jobs[0]) if jobs else 'ignored'}")
+    return None
+
+
+def tcp_timing_probe(name, timeout, rt):
+    """timeout / reconnect_timeout of the TCP classes by effect: `timeout` is handed to the socket layer, the
+    keep-alive of check_connection() follows `reconnect_timeout` alone: nothing is asked before it has passed, a
+    version request goes out once it has, and the link is given up after twice that much silence.  The clock
+    of mysensors.gateway_tcp is a fake one.  Returns a failure text or None."""
+    import mysensors.gateway_tcp as gtcp
+    vals = dict(values_a("/nonexistent"), timeout=timeout, reconnect_timeout=rt, protocol_version="2.2")
+    gw, err = build(name, ["host", "timeout", "reconnect_timeout", "protocol_version"], vals)
+    if gw is None:
+        return f"{name}(timeout, reconnect_timeout) is not accepted: {err}"
+    now, jobs = [1000.0], []
+
+    class Clock:
+        def __getattr__(self, attr):
+            return getattr(real_time, attr)
+
+        def time(self):
+            return now[0]
+    real_time = gtcp.time
+    gtcp.time = Clock()
+    try:
+        gw.tasks.add_job = lambda func, *args: jobs.append(func(*args))
+        gw.tcp_check_timer = gw.tcp_disconnect_timer = now[0]
+        what = f"{name}(timeout={timeout}, reconnect_timeout={rt})"
+        for after, asks, drops in ((0.5 * rt, False, False), (0.98 * rt, False, False), (1.02 * rt, True, False),
+                                   (1.5 * rt, False, False), (1.99 * rt, False, False), (2.03 * rt, True, True)):
+            del jobs[:]
+            now[0] = 1000.0 + after
+            dropped = False
+            try:
+                gtcp.BaseTCPGateway.check_connection(gw)
+            except OSError:
+                dropped = True
+            except Exception as exc:  # noqa: BLE001
+                return f"{what}: check_connection raised {type(exc).__name__}: {exc}"
+            if dropped != drops:
+                return (f"{what}: {after:g} s after the last answer the connection is "
+                        f"{'given up' if dropped else 'not given up'}")
+            if not dropped and bool(jobs) != asks:
+                return (f"{what}: {after:g} s after the connection was made a version request is "
+                        f"{'sent' if jobs else 'not sent'} (the previous one went out at "
+                        f"{gw.tcp_check_timer - 1000.0:g} s)")
+    finally:
+        gtcp.time = real_time
     return None
 
 
 def run_effects(res, tmp):
     for name in CLASSES:
-        if "MQTT" in name:
-            for retain in (None, True, False):
+        if "TCP" in name:
+            for timeout, rt in ((1.0, 30.0), (10.0, 2.0), (1.0, 10.0), (3.0, 3.0), (0.5, 120.0)):
                 res.count("effect-probes")
                 res.evaluations += 1
-                res.distinct.add(digest(["retain", name, retain]))
-                bad = mqtt_retain_probe(name, retain)
+                res.distinct.add(digest(["tcp-timing", name, timeout, rt]))
+                bad = tcp_timing_probe(name, timeout, rt)
                 if bad:
                     res.oracle_failures.append({
-                        "key": {"kind": "option-without-effect", "class": name, "option": "retain/prefixes"},
-                        "what": bad, "replay": {"op": "retain", "class": name, "retain": retain}})
+                        "key": {"kind": "option-without-effect", "class": name, "option": "timeout/reconnect_timeout"},
+                        "what": bad, "replay": {"op": "tcp-timing", "class": name, "timeout": timeout, "rt": rt}})
+    for name in CLASSES:
+        if "MQTT" in name:
+            for retain in (None, True, False):
+                # prefixes are used as configured: also one that ends in '/', one level only, and nested ones
+                for pin, pout in (("px/in", "px/out"), ("site1/gw-out/", "site1/gw-in/"), ("in", "out"),
+                                  ("a/b/c/d/e/f", "a/b/c/d/e/g")):
+                    res.count("effect-probes")
+                    res.evaluations += 1
+                    res.distinct.add(digest(["retain", name, retain, pin]))
+                    bad = mqtt_retain_probe(name, retain, pin, pout)
+                    if bad:
+                        res.oracle_failures.append({
+                            "key": {"kind": "option-without-effect", "class": name, "option": "retain/prefixes"},
+                            "what": bad, "replay": {"op": "retain", "class": name, "retain": retain, "pin": pin, "pout": pout}})
     for name in CLASSES:
         for with_callback in (True, False):
             for ext in ("json", "pickle"):
